@@ -384,6 +384,14 @@ def rule_schema_bfs(crate, prop, tier):
             o.check(carries, tr, "B2-push-neighbour", "the enqueued element does not carry the scanned neighbour", pu["span"])
             o.check(world_has_load(fx, pu["b"], False, M, v), tr, "B2-unvisited-test",
                     "a vertex is enqueued without a dominating `not visited` test on it", pu["span"])
+            def allowed(a, v=v):
+                if a[0] == "false" and a[1][0] == "mem":
+                    r, i = load_parts(a[1])
+                    return r == M and i == v
+                return is_range_guard(a, v)
+            extra = extra_conditions(tr, nl, pu["b"], allowed)
+            o.check(not extra, tr, "B2-push-guard", "an out-neighbour is enqueued only under a condition other than `not visited` "
+                    "(%s)" % ", ".join(a[0] for a in extra[:3]), pu["span"])
             sts = [ev for ev, i in stores_to(tr, M, v) if const_is(ev["val"], 1) and same_region(an, ev["b"], pu["b"])]
             o.check(bool(sts), tr, "B2-mark-with-push", "a vertex is enqueued without being marked visited on the same path "
                     "(it can be enqueued again)", pu["span"])
@@ -488,6 +496,45 @@ def closure_return(crate, cpath):
     return None
 
 
+def extra_conditions(tr, nl, b, allowed):
+    """branch facts that hold at block b but not yet when the neighbour item is produced, minus the
+    allowed ones: the additional conditions under which b is reached within one scan step"""
+    an, fx = tr.an, tr.fx
+    res = nl["ev"]["res"]
+    # block entered on the Some edge of the neighbour loop
+    start = None
+    for x in an.cfg.rpo:
+        ev = fx.ev_term.get(x)
+        if ev is not None and ev["k"] == "switch" and ev["discr"][0] == "discr" and ev["discr"][1] == res:
+            for tg, lab in an.cfg.succ[x]:
+                if ("variant", res, "Some") in fx.edge_atoms(x, lab, tg):
+                    start = tg
+    if start is None:
+        return [("no-some-edge",)]
+    base = set()
+    for w in fx.worlds_at(start):
+        base |= set(w)
+    ws = fx.worlds_at(b)
+    if not ws:
+        return []
+    common = set(ws[0])
+    for w in ws[1:]:
+        common &= set(w)
+    out = []
+    for a in common - base:
+        if a[0] == "variant":
+            continue
+        if allowed(a):
+            continue
+        out.append(a)
+    return out
+
+
+def is_range_guard(a, v):
+    """v < something / something <= ... : the bounds assertions on the neighbour id"""
+    return a[0] in ("lt", "le") and (a[1] == v or a[2] == v)
+
+
 def rule_schema_dfs(crate, prop, tier):
     o = Obl("SCHEMA-DFS")
     for S, nf in iterator_next_fns(crate):
@@ -523,16 +570,14 @@ def rule_schema_dfs(crate, prop, tier):
             carries = E == v or (E[0] == "agg" and v in E[3])
             o.check(carries, tr, "D3-push-neighbour", "the pushed element does not carry the scanned neighbour", pu["span"])
             # the push may only be skipped for already visited neighbours
-            ok_guard = True
-            for w in fx.worlds_at(pu["b"]):
-                for a in w:
-                    if a[0] in ("true", "false") and a[1][0] == "mem":
-                        r, i = load_parts(a[1])
-                        if r == M and i == v and a[0] == "true":
-                            ok_guard = False
-                    elif a[0] in ("true", "false") and a[1][0] not in ("mem",) and _mentions(a[1], nl["ev"]["res"]):
-                        ok_guard = False
-            o.check(ok_guard, tr, "D3-push-guard", "an out-neighbour is pushed only under a condition other than `not visited`", pu["span"])
+            def allowed(a, v=v):
+                if a[0] == "false" and a[1][0] == "mem":
+                    r, i = load_parts(a[1])
+                    return r == M and i == v
+                return is_range_guard(a, v)
+            extra = extra_conditions(tr, nl, pu["b"], allowed)
+            o.check(not extra, tr, "D3-push-guard", "an out-neighbour is pushed only under a condition other than `not visited` "
+                    "(%s)" % ", ".join(a[0] for a in extra[:3]), pu["span"])
             if nm == "DfsDist":
                 lvl = E[3][1] if E[0] == "agg" and len(E[3]) == 2 else None
                 d1 = mk_field(P, "1", 1)
@@ -673,6 +718,14 @@ def rule_schema_dj(crate, prop, tier):
                 return False
             o.check(fx.holds(pu["b"], strict), tr, "J3-strict-relax",
                     "a vertex is pushed without a dominating strict test `new distance < dist[v]`", pu["span"])
+            def allowed(a, v=v, k=k):
+                if a[0] in ("lt", "le") and a[1] == k and a[2][0] == "mem":
+                    r, i = load_parts(a[2])
+                    return r == Dm and i == v
+                return is_range_guard(a, v)
+            extra = extra_conditions(tr, nl, pu["b"], allowed)
+            o.check(not extra, tr, "J3-push-guard", "a relaxation happens only under a condition other than `new < dist[v]` "
+                    "(%s)" % ", ".join(a[0] for a in extra[:3]), pu["span"])
             sts = [ev for ev, i in stores_to(tr, Dm, v) if ev["val"] == k and same_region(an, ev["b"], pu["b"])]
             o.check(bool(sts), tr, "J3-store-with-push", "dist[v] is not updated to the pushed key on the same path", pu["span"])
             if nm == "DijkstraPred":
